@@ -140,7 +140,7 @@ end
 
 /-- a statement node the control-flow passes treat as opaque -/
 def simpleCode (c : Node) : Bool :=
-  c.cls != .jz && c.cls != .jump && c.cls != .ifThen && c.cls != .repeat_
+  c.cls != .jz && c.cls != .jump && c.cls != .ifThen && c.cls != .repeat_ && c.cls != .tell
 
 /- well-formed skeleton: the emitting instruction lies inside its fragment, simple statements are opaque, an else-branch
     that exists produces at least one statement (`e = []` means "no else": the compiler then emits no `93`) -/
